@@ -554,10 +554,12 @@ class TestManager:
         if self.total_file_size == 0:
             raise ZeroSizeError(self.test_cases)
 
-        self.create_root()
-        self.pass_statistic.start(self.current_pass)
+        # set up the key reader before anything is created: it needs a standard input, and if it cannot be
+        # set up the pass run must not leave its temporary root behind
         if not self.skip_key_off:
             logger = KeyLogger()
+        self.create_root()
+        self.pass_statistic.start(self.current_pass)
 
         try:
             for test_case in self.sorted_test_cases:
